@@ -86,7 +86,7 @@ var checks = map[string]Check{
 	},
 	"C01": {
 		Level:       "model_checking",
-		Rule:        "stateless DFS over all interleavings (preemption bound) of 2-3 concurrent Call/AsyncCall/Push operations (one session, both directions, two sessions) with tagged bodies+metadata of different lengths; the full (protocol x body codec x filter pipe) product over raw/json/pb/thrift-binary plus http x codec x {none, gzip} at bound 0, selected configurations deeper; handlers registered as functions and (ctl=1) as struct controllers; oracles: result/handler input/metadata agree with the sender's tag, handler inputs stable across a yield, multiset of handled = multiset sent",
+		Rule:        "stateless DFS over all interleavings (preemption bound) of 2-3 concurrent Call/AsyncCall/Push operations (one session, both directions, two sessions) with tagged bodies+metadata of different lengths; the full (protocol x body codec x filter pipe) product over raw/json/pb/thrift-binary plus http x codec x {none, gzip} at bound 0, selected configurations deeper; handlers registered as functions and (ctl=1) as struct controllers; unknown-route handlers fed every message sequence over two sessions; oracles: result/handler input/metadata agree with the sender's tag, handler inputs stable across a yield, multiset of handled = multiset sent",
 		Assumptions: baseAssumptions,
 		Jobs: func(tier string) []Job {
 			var js []Job
@@ -134,6 +134,9 @@ var checks = map[string]Check{
 			for _, pr := range []string{"raw", "json"} {
 				js = append(js, sched("c01", "proto="+pr+",body=json,shape=SEQ,k=4", 0, 1))
 			}
+			// unknown-route handlers on two sessions of one peer: every message sequence with empty/short/long bodies
+			// (a handler never sees bytes of another message, of its own or of the other session)
+			js = append(js, sched("c20", "kind=unknown,depth=3", 0, 2))
 			return js
 		},
 	},
@@ -336,7 +339,7 @@ var checks = map[string]Check{
 	},
 	"C20": {
 		Level:       "model_checking",
-		Rule:        "differential explicit-state enumeration: every first-user operation sequence up to depth 3 (quick) / 4 over the setter alphabet of Message (13 setters), Args (6), pooled Socket (5) and the handler context (10 ways to dirty it x handler returns / fails / panics), release to the (LIFO) pool, re-acquire with pointer identity asserted, then every second-user sequence of length <=2; all public getters, the decode path and the packed bytes must equal those of a freshly constructed object; for contexts the second handler's view and the exact reply bytes are compared with the fresh-context reference",
+		Rule:        "differential explicit-state enumeration: every first-user operation sequence up to depth 3 (quick) / 4 over the setter alphabet of Message (13 setters), Args (6), pooled Socket (5) and the handler context (10 ways to dirty it x handler returns / fails / panics; plus every sequence of messages for unregistered routes with empty/short/long bodies on two sessions, handled by the unknown-call/unknown-push handlers), release to the (LIFO) pool, re-acquire with pointer identity asserted, then every second-user sequence of length <=2; all public getters, the decode path and the packed bytes must equal those of a freshly constructed object; for contexts the second handler's view and the exact reply bytes are compared with the fresh-context reference",
 		Assumptions: baseAssumptions,
 		Jobs: func(tier string) []Job {
 			d := "3"
@@ -351,6 +354,14 @@ var checks = map[string]Check{
 				}
 				js = append(js, j)
 			}
+			// messages for unregistered routes (unknown-call/unknown-push handlers) on two sessions: every sequence
+			// of calls/pushes with empty, short and long bodies; each handler sees its own body bytes only
+			u := sched("c20", "kind=unknown,depth=3", 0, 2)
+			u.EnvOnly = true
+			if tier == "thorough" {
+				u = sched("c20", "kind=unknown,depth=4", 0, 8)
+			}
+			js = append(js, u)
 			return js
 		},
 	},
